@@ -1,5 +1,6 @@
 import PyYetiVerif.Lemmas.NewmarkVel
 import PyYetiVerif.Props.C17
+import PyYetiVerif.Props.C17Conv
 /-!
 # C17 (continued) — velocities and accelerations of SolveNewmark: what is returned, and how fast it converges
 
@@ -73,13 +74,10 @@ end returned
 
 /-! ## convergence of the returned velocities and accelerations (scalar test equation) -/
 
-/-- `convK1`, `convK2` of `newmark_converges_scalar` are `T/√m` times `convE1`, `convE2` -/
-theorem convE_scaling (m b k T M3 M4 : ℝ) :
-    T / √m * convE1 m b k T
-      = T / √m * ((b * T / 12 + m / 6) * √(m + k * T ^ 2 / 3) / m ^ 2 + 1 / (3 * √m)) ∧
-    T / √m * convE2 m b k T M3 M4
-      = T / √m * ((m * M3 / 2 + b * M3 * T / 4) * √(m + k * T ^ 2 / 3) / m
-        + T * (5 * m * M4 / 12 + b * M3 / 2) / √m) := ⟨rfl, rfl⟩
+/-- `convK1`, `convK2` of `newmark_converges_scalar` are `T/√m` times the energy-radius coefficients `convE1`, `convE2` -/
+theorem convK_eq_convE (m b k T M3 M4 : ℝ) :
+    convK1 m b k T = T / √m * convE1 m b k T ∧ convK2 m b k T M3 M4 = T / √m * convE2 m b k T M3 M4 :=
+  ⟨rfl, rfl⟩
 
 /-- interior velocities: `|v_j − u'(t_j)| ≤ R/√m + M₃ h²/6`, `1 ≤ j ≤ nt − 2`; `v_0` is the exact `u'(0)` -/
 theorem newmark_velocity_converges_scalar (m b k T M3 M4 : ℝ) (hm : 0 < m) (hb : 0 ≤ b) (hk : 0 ≤ k)
